@@ -26,19 +26,106 @@ var c06Classes = []string{
 	"conflict-race",
 	"overlap-same-name-unhealthy", "overlap-same-name-conflict",
 	"state-unwritable-deploy", "state-unwritable-rollout",
+	// failing commands whose targets change health while the command is still in progress
+	"flap-unhealthy-timeout", "flap-unhealthy-new-service", "flap-unhealthy-rollout",
+	"flap-conflict-new", "flap-conflict-move",
 }
 
 type c06Scenario struct {
-	Idx     int    `json:"idx"`
-	History []Cmd  `json:"history"`
-	Class   string `json:"class"`
-	Fail    Cmd    `json:"failing_command"`
+	Idx     int       `json:"idx"`
+	History []Cmd     `json:"history"`
+	Class   string    `json:"class"`
+	Fail    Cmd       `json:"failing_command"`
+	Flaps   []c06Flap `json:"flapping_targets,omitempty"` // filled in when the failing command is staged
 }
 
 func failProbe(n int, at time.Duration) ProbeAct { return ProbeAct{Status: 500} }
 
 // hangProbe: the health endpoint accepts the probe and never answers
 func hangProbe(n int, at time.Duration) ProbeAct { return ProbeAct{Status: 200, Delay: time.Hour} }
+
+// c06Flap scripts the health endpoint of a target whose health changes while the command that
+// names it is still in progress: it passes its first Up probes (so the command's wait for it is
+// over and nothing of the command looks at it any more) and fails later ones.
+type c06Flap struct {
+	Pattern string `json:"pattern"` // down: fails from then on; blip: fails Down probes, then passes again; alternate: fails every other probe
+	Up      int    `json:"up"`
+	Down    int    `json:"down,omitempty"`
+	How     string `json:"how"` // status | close | refuse | hang
+}
+
+func c06GenFlap(rng *rand.Rand) c06Flap {
+	fl := c06Flap{Up: 1 + rng.IntN(2)}
+	fl.Pattern = pick(rng, []string{"down", "down", "down", "blip", "alternate"})
+	fl.How = pick(rng, []string{"status", "status", "close", "refuse", "hang"})
+	if fl.Pattern == "blip" {
+		fl.Down = 1 + rng.IntN(3)
+	}
+	return fl
+}
+
+func (fl c06Flap) probe() func(n int, at time.Duration) ProbeAct {
+	return func(n int, at time.Duration) ProbeAct {
+		bad := false
+		switch {
+		case n < fl.Up:
+		case fl.Pattern == "down":
+			bad = true
+		case fl.Pattern == "blip":
+			bad = n < fl.Up+fl.Down
+		default:
+			bad = (n-fl.Up)%2 == 0
+		}
+		if !bad {
+			return ProbeAct{Status: 200}
+		}
+		switch fl.How {
+		case "close":
+			return ProbeAct{Close: true}
+		case "refuse":
+			return ProbeAct{Refuse: true}
+		case "hang":
+			return ProbeAct{Status: 200, Delay: time.Hour}
+		}
+		return ProbeAct{Status: 503}
+	}
+}
+
+// c06NeverProbe: one of the ways in which a target never becomes healthy
+func c06NeverProbe(rng *rand.Rand) func(n int, at time.Duration) ProbeAct {
+	switch rng.IntN(4) {
+	case 0:
+		return hangProbe
+	case 1:
+		return func(n int, at time.Duration) ProbeAct { return ProbeAct{Refuse: true} }
+	}
+	return failProbe
+}
+
+// c06StageFlapping gives every target of the failing command a role: the target at position hold
+// keeps the command waiting (script holdProbe), every other target becomes healthy with its first
+// probe and then either stays so or - at least one of them - flaps.
+func c06StageFlapping(w *World, run *Run, rng *rand.Rand, targets []string, hold int, holdProbe func(n int, at time.Duration) ProbeAct) []c06Flap {
+	var flaps []c06Flap
+	flapper := rng.IntN(len(targets) - 1) // this one (counted among the others) always flaps
+	k := 0
+	for i, tn := range targets {
+		if i == hold {
+			w.AddTarget(tn, holdProbe)
+			continue
+		}
+		if k == flapper || rng.IntN(2) == 0 {
+			fl := c06GenFlap(rng)
+			flaps = append(flaps, fl)
+			w.AddTarget(tn, fl.probe())
+			run.Count("flap_"+fl.Pattern+"_"+fl.How, 1)
+		} else {
+			w.AddTarget(tn, nil)
+		}
+		k++
+	}
+	return flaps
+}
 
 func c06Gen(rng *rand.Rand, idx int) c06Scenario {
 	sc := c06Scenario{Idx: idx, Class: c06Classes[idx%len(c06Classes)]}
@@ -145,6 +232,25 @@ func c06Run(t *testing.T, run *Run, sc c06Scenario, rng *rand.Rand) {
 			w.AddTarget(tn, hangProbe)
 		}
 		rejected = f.Targets
+	case "flap-unhealthy-timeout", "flap-unhealthy-new-service", "flap-unhealthy-rollout":
+		// one target never becomes healthy and keeps the command waiting until the deploy timeout; its
+		// siblings became healthy long before and some of them have failed probes since (so they are out
+		// of the new load balancer's rotation, or back in it, at the moment the command gives up)
+		ivl := pick(rng, []time.Duration{200 * time.Millisecond, 500 * time.Millisecond, time.Second})
+		f.HCIv, f.HCTO = ivl, pick(rng, []time.Duration{300 * time.Millisecond, 5 * time.Second})
+		f.DeployTO = pick(rng, []time.Duration{2500 * time.Millisecond, 3300 * time.Millisecond})
+		switch sc.Class {
+		case "flap-unhealthy-new-service":
+			f.Svc, f.Hosts = "s9", []string{"h9.example"}
+		case "flap-unhealthy-rollout":
+			// (a rollout deploy probes with the health-check settings of the service: 1s or 2s apart)
+			f = Cmd{Kind: "rollout-deploy", Svc: victim, Targets: g.targets(victim, "r"), DeployTO: pick(rng, []time.Duration{4500 * time.Millisecond, 6500 * time.Millisecond}), DrainTO: time.Second}
+		}
+		for len(f.Targets) < 2 {
+			f.Targets = append(f.Targets, fmt.Sprintf("%s-f%d-%d:80", f.Svc, g.gen, len(f.Targets)))
+		}
+		sc.Flaps = c06StageFlapping(w, run, rng, f.Targets, rng.IntN(len(f.Targets)), c06NeverProbe(rng))
+		rejected = f.Targets
 	case "never-healthy-rollout":
 		f = Cmd{Kind: "rollout-deploy", Svc: victim, Targets: g.targets(victim, "r"), DeployTO: 2 * time.Second, DrainTO: time.Second}
 		w.AddTarget(f.Targets[0], failProbe)
@@ -163,11 +269,12 @@ func c06Run(t *testing.T, run *Run, sc c06Scenario, rng *rand.Rand) {
 		f.Pages = "emptypages"
 	case "acme-wildcard":
 		f.TLS, f.Hosts, f.Prefixes = "acme", []string{"*.wild.example"}, nil
-	case "conflict-new", "conflict-move":
+	case "conflict-new", "conflict-move", "flap-conflict-new", "flap-conflict-move":
 		// claim a pair owned by some other service
+		isNew := strings.HasSuffix(sc.Class, "conflict-new")
 		var other string
 		for _, name := range existing {
-			if name != victim || sc.Class == "conflict-new" {
+			if name != victim || isNew {
 				other = name
 				break
 			}
@@ -185,10 +292,31 @@ func c06Run(t *testing.T, run *Run, sc c06Scenario, rng *rand.Rand) {
 		}
 		f.Prefixes = []string{strings.Split(d.Path, ",")[0]}
 		f.TLS = ""
-		if sc.Class == "conflict-new" {
+		if isNew {
 			f.Svc = "s9"
 		}
-		if rng.IntN(3) == 0 {
+		if strings.HasPrefix(sc.Class, "flap-") {
+			// the conflict is only found at the install step, which waits for the slowest target: that
+			// one takes a while to become healthy (a slow first answer, or a few failed probes first),
+			// and in the meantime its siblings, healthy since their first probe, fail later ones
+			f.HCIv, f.HCTO = pick(rng, []time.Duration{300 * time.Millisecond, 500 * time.Millisecond, time.Second}), 5*time.Second
+			f.DeployTO = 6 * time.Second
+			for len(f.Targets) < 2 {
+				f.Targets = append(f.Targets, fmt.Sprintf("%s-f%d-%d:80", f.Svc, g.gen, len(f.Targets)))
+			}
+			slow := pick(rng, []time.Duration{1700 * time.Millisecond, 2300 * time.Millisecond, 3100 * time.Millisecond})
+			holdProbe := func(n int, at time.Duration) ProbeAct { return ProbeAct{Status: 200, Delay: slow} }
+			if rng.IntN(2) == 0 {
+				first := int(slow/f.HCIv) + 1
+				holdProbe = func(n int, at time.Duration) ProbeAct {
+					if n < first {
+						return ProbeAct{Status: 500}
+					}
+					return ProbeAct{Status: 200}
+				}
+			}
+			sc.Flaps = c06StageFlapping(w, run, rng, f.Targets, rng.IntN(len(f.Targets)), holdProbe)
+		} else if rng.IntN(3) == 0 {
 			f.Targets = append(f.Targets, f.Targets[0]) // a target listed twice
 			run.Count("failing_deploy_listing_a_target_twice", 1)
 		} else if len(f.Targets) >= 2 && rng.IntN(2) == 0 {
@@ -288,6 +416,27 @@ func c06Run(t *testing.T, run *Run, sc c06Scenario, rng *rand.Rand) {
 	}
 	// nothing keeps running: watch the rejected targets for 20 probe intervals
 	time.Sleep(20 * 2 * time.Second)
+	if len(sc.Flaps) > 0 {
+		// (coverage only) how many rejected targets had passed a probe and were failing - out of the
+		// rejected load balancer's rotation - when the command reported its error
+		for _, tn := range rejected {
+			if ft := w.Target(tn); ft != nil {
+				passed, last := false, true
+				for _, pr := range ft.ProbeLog() {
+					if pr.Ended && pr.End < rec.Ret {
+						ok := pr.Passed(time.Hour)
+						passed = passed || ok
+						last = ok
+					}
+				}
+				if passed && !last {
+					run.Count("rejected_target_healthy_then_failing_at_failure", 1)
+				} else if passed {
+					run.Count("rejected_target_healthy_at_failure", 1)
+				}
+			}
+		}
+	}
 	for _, tn := range rejected {
 		if ft := w.Target(tn); ft != nil {
 			for _, pr := range ft.ProbeLog() {
